@@ -5,8 +5,9 @@
 (***************************************************************************)
 EXTENDS Oracle
 
-VARIABLES l, pre, drift, driftAt
-tvars == <<st, ev, gh, hist, l, pre, drift, driftAt>>
+VARIABLES l, pre, drift, driftAt,
+          pgh      \* the ghosts before the event (the history-based twins C17_*H read them with the event)
+tvars == <<st, ev, gh, hist, l, pre, drift, driftAt, pgh>>
 
 Trace == ndJsonDeserialize(IOEnv.TRACE_FILE)
 
@@ -19,7 +20,7 @@ FromLog(r) ==
 TraceInit ==
   /\ Trace[1].ev.name = "Init"
   /\ st = FromLog(Trace[1].st) /\ pre = FromLog(Trace[1].st)
-  /\ ev = Trace[1].ev /\ gh = GhostInit /\ hist = <<>>
+  /\ ev = Trace[1].ev /\ gh = GhostInit /\ pgh = GhostInit /\ hist = <<>>
   /\ l = 2 /\ drift = 0 /\ driftAt = 0
 
 Predicted(s, e) ==
@@ -33,9 +34,9 @@ TraceNext ==
          t == FromLog(Trace[l].st)
      IN /\ ev' = e /\ st' = t
         /\ IF e.name = "Init"
-           THEN /\ gh' = GhostInit /\ pre' = t
+           THEN /\ gh' = GhostInit /\ pgh' = GhostInit /\ pre' = t
                 /\ UNCHANGED <<drift, driftAt>>
-           ELSE /\ gh' = GhostStep(gh, st, e, t) /\ pre' = st
+           ELSE /\ gh' = GhostStep(gh, st, e, t) /\ pgh' = gh /\ pre' = st
                 /\ LET d == (~e.halt) /\ Predicted(st, e) # Observed(e, t) IN
                    /\ drift' = drift + (IF d THEN 1 ELSE 0)
                    /\ driftAt' = IF d /\ driftAt = 0 THEN l ELSE driftAt
@@ -51,6 +52,11 @@ Clauses ==
    C17_History |-> C17_History(pre, ev, st),
    C17_StateMirror |-> C17_StateMirror(st),
    C17_Authority |-> C17_Authority(pre, ev),
+   C17_AppendH |-> C17_AppendH(pgh, pre, ev, st),
+   C17_AggregateH |-> C17_AggregateH(pgh, pre, ev, st),
+   C17_HistoryH |-> C17_HistoryH(pgh, pre, ev, st),
+   C17_StateMirrorH |-> C17_StateMirrorH(gh, ev, st),
+   C17_AuthorityH |-> C17_AuthorityH(pgh, ev),
    C13_NoHalt |-> C13_NoHalt(ev),
    Rejected_NoEffect |-> Rejected_NoEffect(pre, ev, st),
    X17_PriceService |-> X17_PriceService(pre, ev),
@@ -143,7 +149,7 @@ Probes ==
   {c \in {"pay_zero_counts", "odd_prov_ok", "odd_prov_rej", "bad_prov_create_rej", "bad_prov_edit_rej", "bad_name_rej", "case_twin_ok", "unknown_name_cmd",
           "cap_denom_rej", "respond_stranger", "respond_expiry_block", "respond_late", "respond_twice",
           "complete_after_edit", "nested_path", "index_path", "create_invalid", "create_by_prov",
-          "svc_name_rej", "agg_case_rej"} :
+          "svc_name_rej", "agg_case_rej", "nan_skipped"} :
      CASE c = "pay_zero_counts" -> ev.name = "Respond" /\ ev.pay \in ZeroPays /\ ev.feed \in Appending(pre, ev, st)
        [] c = "odd_prov_ok" -> ev.name \in {"CreateFeed", "EditFeed"} /\ ev.ok /\ OddProv(ev.provs)
        [] c = "odd_prov_rej" -> ev.name \in {"CreateFeed", "EditFeed"} /\ ~ev.ok /\ OddProv(ev.provs)
@@ -170,6 +176,8 @@ Probes ==
        [] c = "index_path" -> ev.name = "CreateFeed" /\ ev.ok /\ ev.pay = "index"
        [] c = "create_invalid" -> ev.name = "CreateFeed" /\ ~ev.ok /\ ev.feed \notin DOMAIN pre.feeds
                                   /\ ev.feed \notin BadFeedNames
+       [] c = "nan_skipped" -> \E f \in Appending(pre, ev, st) :
+                                  NaNOut(pre, ev, pre.feeds[f].ctx) # {} /\ DOMAIN ValidOut(pre, ev, pre.feeds[f].ctx) # {}
        [] c = "svc_name_rej" -> ev.name = "CreateFeed" /\ ev.pay \in SvcPays
        [] c = "agg_case_rej" -> ev.name = "CreateFeed" /\ ev.agg = "MAX"
        [] c = "create_by_prov" -> ev.name = "CreateFeed" /\ ev.ok /\ ev.who \in DOMAIN pre.bind}
